@@ -6,7 +6,9 @@ import (
 	"go/ast"
 	"go/token"
 	"go/types"
+	"io"
 	"math"
+	"os"
 
 	kstrings "github.com/mazrean/kessoku/internal/pkg/strings"
 	vs "github.com/mazrean/kessoku/internal/verifspec"
@@ -1411,4 +1413,123 @@ func inv_detectCycles_main(g *Graph, colors map[*node]nodeColor, parent map[*nod
 	vs.Invariant("nothing_in_progress", vs.ForallPtr(func(u *node) bool { return colors[u] != gray }))
 	vs.Invariant("color_domain", colorDomain(colors))
 	vs.Invariant("visited_finished", vs.Forall(kvcIdx, func(i int) bool { return colors[g.nodes[i]] == black }))
+}
+
+// ---------------------------------------------------------------------------
+// C09 (output file clause): a source file whose declarations are refused never gets an output file
+// created or truncated. Ghost counters: gRefused counts CreateInjector failures, gCreated counts os.Create calls.
+// ---------------------------------------------------------------------------
+
+var (
+	gRefused int
+	gCreated int
+)
+
+//kvc:model os.Create
+func model_os_Create(name string) (*os.File, error) {
+	gCreated++ // os.Create truncates an existing file even when a later step fails, so every call counts
+	if vs.NondetBool() {
+		return nil, vs.SomeError()
+	}
+	return new(os.File), nil
+}
+
+//kvc:model (*os.File).Close
+func model_File_Close(f *os.File) error {
+	if vs.NondetBool() {
+		return vs.SomeError()
+	}
+	return nil
+}
+
+//kvc:pure outputFileName
+
+//kvc:contract NewGraph
+func contract_NewGraph(metaData *MetaData, build *BuildDirective, varPool *VarPool) (result *Graph, err error) {
+	vs.ModifiesAll()
+	vs.Allocates()
+	return
+}
+
+//kvc:contract (*Graph).Build
+func contract_Graph_Build(g *Graph, metaData *MetaData, varPool *VarPool) (result *Injector, err error) {
+	vs.ModifiesAll()
+	vs.Allocates()
+	return
+}
+
+//kvc:ghost CreateInjector after "graph, err := NewGraph(metaData, build, varPool)"
+func ghostRefusedGraph(err error) {
+	if err != nil {
+		gRefused++
+	}
+}
+
+//kvc:ghost CreateInjector after "injector, err := graph.Build(metaData, varPool)"
+func ghostRefusedBuild(err error) {
+	if err != nil {
+		gRefused++
+	}
+}
+
+//kvc:contract CreateInjector
+func contract_CreateInjector(metaData *MetaData, build *BuildDirective, varPool *VarPool) (result *Injector, err error) {
+	vs.Requires(build != nil)
+	vs.Ensures("refusal_is_counted", (err != nil && gRefused == vs.Old(gRefused)+1) || (err == nil && gRefused == vs.Old(gRefused)))
+	vs.Ensures("no_file_touched", gCreated == vs.Old(gCreated))
+	vs.ModifiesAll()
+	vs.Allocates()
+	return
+}
+
+//kvc:loop CreateInjector "for _, provider := range build.Providers"
+func inv_CreateInjector_log() {
+}
+
+//kvc:contract (*Parser).ParseFile
+func contract_Parser_ParseFile(p *Parser, filename string, varPool *VarPool) (metaData *MetaData, builds []*BuildDirective, err error) {
+	vs.Ensures("builds_nonnil", vs.Forall(len(builds), func(i int) bool { return builds[i] != nil }))
+	vs.ModifiesAll()
+	vs.Allocates()
+	return
+}
+
+//kvc:contract Generate
+func contract_Generate(w io.Writer, filename string, metaData *MetaData, injectors []*Injector, varPool *VarPool) (err error) {
+	vs.ModifiesAll()
+	vs.Allocates()
+	return
+}
+
+//kvc:contract (*Processor).processFile
+func contract_Processor_processFile(p *Processor, filename string) (result error) {
+	vs.Requires(p != nil)
+	// if any declaration of the file is refused, no output file is created (or truncated) and an error is returned
+	vs.Ensures("no_output_when_a_declaration_is_refused", vs.Implies(gRefused > vs.Old(gRefused), gCreated == vs.Old(gCreated) && result != nil))
+	vs.Ensures("at_most_one_output_file", gCreated <= vs.Old(gCreated)+1)
+	vs.Ensures("refusals_only_grow", gRefused >= vs.Old(gRefused))
+	vs.ModifiesAll()
+	vs.Allocates()
+	return
+}
+
+//kvc:loop (*Processor).processFile "for _, build := range builds"
+func inv_processFile(kvcIdx int) {
+	vs.Invariant("nothing_refused_nothing_created", gRefused == vs.Old(gRefused) && gCreated == vs.Old(gCreated))
+}
+
+//kvc:contract (*Processor).ProcessFiles
+func contract_Processor_ProcessFiles(p *Processor, files []string) (result error) {
+	vs.Requires(p != nil)
+	// the run fails as soon as a declaration is refused: the error reaches the caller (and main exits non-zero)
+	vs.Ensures("refusal_fails_the_run", vs.Implies(gRefused > vs.Old(gRefused), result != nil))
+	vs.ModifiesAll()
+	vs.Allocates()
+	return
+}
+
+//kvc:loop (*Processor).ProcessFiles "for _, filename := range files"
+func inv_ProcessFiles(p *Processor) {
+	vs.Invariant("nothing_refused_so_far", gRefused == vs.Old(gRefused))
+	vs.Invariant("processor_intact", p != nil)
 }
